@@ -15,7 +15,7 @@ import (
 func TestVerifC19FLP(t *testing.T) {
 	defer vlib.Done()
 	sub := "flp/count"
-	vlib.Check(t, vlib.N(600, 4000), func(t *rapid.T) {
+	vlib.Check(t, vlib.N(600, 2500), func(t *rapid.T) {
 		f := newFlpCount()
 		m := rapid.Bool().Draw(t, "m")
 		shares := uint8(rapid.SampledFrom([]int{1, 2, 3, 16}).Draw(t, "shares"))
